@@ -751,10 +751,10 @@ def _strategy(tier):
 def plan(tier):
   if tier == "quick":
     return [
-      Enum("seq-prio", lambda: _enum("prio", 4), shards=16),
-      Enum("seq-remove", lambda: _enum("remove", 4), shards=16),
-      Enum("seq-weak", lambda: _enum("weak", 4), shards=16),
-      Enum("seq-eq", lambda: _enum("eq", 4), shards=16),
+      Enum("seq-prio", lambda: _enum("prio", 4), shards=4),
+      Enum("seq-remove", lambda: _enum("remove", 4), shards=6),
+      Enum("seq-weak", lambda: _enum("weak", 4), shards=8),
+      Enum("seq-eq", lambda: _enum("eq", 4), shards=4),
       Hyp("histories", lambda: _strategy(tier), examples=3000, shards=16),
     ]
   return [
